@@ -33,6 +33,7 @@ type ProgCfg struct {
 	PBadLit      int  // percent of int/float/string literals that are lexically fine but malformed or out of range
 	BindInBlocks bool // bind statements also inside block bodies (the implementation accepts them)
 	PShort       int  // percent of compound expressions that are and/or (0 = default 15)
+	PPrelude     int  // percent of programs that start with 0..300 unrelated declarations (shifts every slot and constant index)
 	// statement kind weights: var, assignment, print, def, bind (bind only
 	// at toplevel and with Binds); zero value = defaults
 	WVar, WAsg, WPrint, WDef, WBind int
@@ -47,7 +48,7 @@ func DefaultCfg() ProgCfg {
 		MaxTop: 8, MaxBody: 6, MaxDepth: 3, ExprDepth: 4,
 		Names: DefaultNames, Types: DefaultTypes, BNames: DefaultBNames,
 		PWild: 15, PIllegal: 0, PUnknown: 0, PDivZero: 0, PDupChild: 5,
-		Binds: false, PrintState: false, PEmbedAsg: 15, PPar: 10,
+		Binds: false, PrintState: false, PEmbedAsg: 15, PPar: 10, PPrelude: 5,
 	}
 }
 
@@ -621,17 +622,21 @@ func (g *PG) bindStmt() *Stmt {
 
 func (g *PG) badBindStmt() *Stmt {
 	s := &Stmt{K: "bind", Name: Pick(g.T, "bindtype", g.C.Types), Target: "struct"}
-	switch Int(g.T, 0, 5, "badbind") {
+	switch Int(g.T, 0, 6, "badbind") {
 	case 0:
 		s.HasSel, s.Sel = true, Tok{KWord, "all"} // all -> struct
 	case 1:
 		s.HasSel, s.Sel = true, Tok{KNum, Pick(g.T, "badnum", []string{"2", "0", "01", "0x1", "1.0"})}
 	case 2:
-		s.HasSel, s.Sel = true, Tok{KWord, Pick(g.T, "badword", []string{"x", "First", "any", "one"})}
+		s.HasSel, s.Sel = true, Tok{KWord, Pick(g.T, "badword", []string{"x", "First", "any", "one", "struct", "slice"})}
 	case 3:
 		s.HasSel, s.Sel = true, Tok{KStr, `"q"`}
 	case 4:
-		s.Target = Pick(g.T, "badtarget", []string{"map", "Struct", "slices", "x"})
+		s.Target = Pick(g.T, "badtarget", []string{"map", "Struct", "slices", "x", "first", "last", "all"})
+	case 5:
+		// the words of the statement in each other's place
+		s.HasSel, s.Sel = true, Tok{KWord, Pick(g.T, "swapsel", []string{"struct", "slice"})}
+		s.Target = Pick(g.T, "swaptarget", []string{"first", "last", "all", "slice", "struct"})
 	default:
 		s.HasSel, s.Sel = true, Tok{KWord, "all"}
 		s.Target = Pick(g.T, "badtarget2", []string{"struct", "x"})
@@ -780,7 +785,34 @@ func GenProg(t *rapid.T, c ProgCfg) (*Prog, map[string]int) {
 	if c.PrintState {
 		stmts = append(stmts, g.printState()...)
 	}
+	if Chance(t, c.PPrelude, "prelude") {
+		stmts = append(Prelude(t), stmts...)
+		g.feat("prelude")
+	}
 	return &Prog{Stmts: stmts}, g.Feat
+}
+
+// Prelude draws 0..300 unrelated toplevel declarations (names z0, z1, ...
+// outside every name pool). In front of a program they give its variables
+// arbitrary stack slots and its literals and names arbitrary constant
+// indices, so that operand bytes take every small value, also the values of
+// opcodes.
+func Prelude(t *rapid.T) []*Stmt {
+	k := Uniform(t, 65, "preludeN")
+	if Chance(t, 30, "preludeBig") {
+		k = Uniform(t, 301, "preludeN2")
+	}
+	var out []*Stmt
+	for i := 0; i < k; i++ {
+		var lit *Expr
+		if Chance(t, 70, "preludeConst") {
+			lit = &Expr{K: "int", T: strconv.Itoa(100000 + i)}
+		} else {
+			lit = &Expr{K: "nil"}
+		}
+		out = append(out, &Stmt{K: "var", Name: "z" + strconv.Itoa(i), E: lit})
+	}
+	return out
 }
 
 // ---------- exported helpers for hand-built preambles ----------
@@ -922,6 +954,57 @@ func JumpLimitExpr(op string, prefix, n int) *Expr {
 	return &Expr{K: op, A: left, B: e}
 }
 
+// JumpLimitExprT is JumpLimitExpr with a choice of the repeated term: 0 the
+// literal 1 (two bytes of code per term), 1 the variable v, which the program
+// must declare (three bytes per term), 2 the literal 5 (a constant: three
+// bytes per term). Terms of three bytes make a jump distance that is off by
+// a few bytes land inside an instruction.
+func JumpLimitExprT(op string, prefix, n, term int) *Expr {
+	e := JumpLimitExpr(op, prefix, 0)
+	var tm *Expr
+	switch term {
+	case 1:
+		tm = &Expr{K: "id", T: "v"}
+	case 2:
+		tm = &Expr{K: "int", T: "5"}
+	default:
+		tm = &Expr{K: "int", T: "1"}
+	}
+	b := e.B
+	for i := 0; i < n; i++ {
+		b = &Expr{K: "bin", T: "+", A: b, B: tm}
+	}
+	e.B = b
+	return e
+}
+
+// WrapShortCircuit puts a short-circuit expression e (operator op) into one
+// of six contexts: 0 none; 1 left operand of the other operator; 2 a chain of
+// the same operator; 3 right operand of the other operator; 4 under not;
+// 5 between two operands of the other operator. Trees are grouped to the
+// right, as the parser groups chains of and/or.
+func WrapShortCircuit(e *Expr, op string, wrap int) *Expr {
+	seven := &Expr{K: "int", T: "7"}
+	other := "or"
+	if op == "or" {
+		other = "and"
+	}
+	switch wrap {
+	case 1:
+		return &Expr{K: other, A: e, B: seven}
+	case 2:
+		e.B = &Expr{K: op, A: e.B, B: seven}
+		return e
+	case 3:
+		return &Expr{K: other, A: &Expr{K: "nil"}, B: e}
+	case 4:
+		return &Expr{K: "not", A: e}
+	case 5:
+		return &Expr{K: other, A: &Expr{K: "int", T: "0"}, B: &Expr{K: other, A: e, B: seven}}
+	}
+	return e
+}
+
 // ManyLocalsProg declares n variables (optionally inside a block) and reads
 // and assigns the last ones, so that slot numbers and the final pop count
 // need multi-byte operands from 241 on.
@@ -1015,7 +1098,13 @@ func DeepNestProg(n int) *Prog {
 // SpecialProg draws one of the big-program families that reach the
 // multi-byte operand classes and the nesting limits.
 func SpecialProg(t *rapid.T) (*Prog, string) {
-	switch Uniform(t, 4, "specialfamily") {
+	switch Uniform(t, 6, "specialfamily") {
+	case 4, 5:
+		k, kind := Uniform(t, 72, "sweepk"), Uniform(t, OperandSweepKinds, "sweepkind")
+		if Chance(t, 15, "sweepbig") {
+			k = 230 + Uniform(t, 40, "sweepk2")
+		}
+		return OperandSweepProg(k, kind), "special:operand-sweep"
 	case 0:
 		n := Pick(t, "nlocals", []int{239, 240, 241, 242, 260, 600})
 		return ManyLocalsProg(n, Bool(t, "inblock")), "special:locals-" + strconv.Itoa(n)
@@ -1029,4 +1118,63 @@ func SpecialProg(t *rapid.T) (*Prog, string) {
 		n := Pick(t, "chain", []int{50, 127, 128, 300, 1000, 1000, 16500, 30000})
 		return &Prog{Stmts: []*Stmt{{K: "print", E: JumpLimitExpr(Pick(t, "scop", []string{"and", "or"}), Uniform(t, 5, "prefix"), n)}}}, "special:long-operand-" + strconv.Itoa(n)
 	}
+}
+
+// OperandSweepKinds is the number of statement shapes OperandSweepProg knows.
+const OperandSweepKinds = 10
+
+// OperandSweepProg builds a small program in which the instruction emitted
+// last before a scope ends (and the operands around it) carry the operand
+// value k: k unrelated toplevel variables, each with a constant of its own,
+// come first, so that the next variable gets slot k and the next constant
+// index k (plus a few, for the block's type and field names). kind selects the
+// statement in last position of the block, which also declares a variable of
+// its own so that the scope has something to pop.
+func OperandSweepProg(k, kind int) *Prog {
+	var top []*Stmt
+	for i := 0; i < k; i++ {
+		top = append(top, &Stmt{K: "var", Name: "z" + strconv.Itoa(i), E: &Expr{K: "int", T: strconv.Itoa(100000 + i)}})
+	}
+	id := func(n string) *Expr { return &Expr{K: "id", T: n} }
+	lit := func(s string) *Expr { return &Expr{K: "int", T: s} }
+	asg := func(n string, e *Expr) *Stmt { return &Stmt{K: "expr", E: &Expr{K: "asg", T: n, A: e}} }
+	lastVar := "z" + strconv.Itoa(k-1)
+	if k == 0 {
+		top = append(top, &Stmt{K: "var", Name: "z0", E: lit("100000")})
+		lastVar = "z0"
+	}
+	var body []*Stmt
+	switch kind {
+	case 0: // a fresh literal: CONST <k+..>
+		body = []*Stmt{asg("x", id(lastVar)), {K: "var", Name: "y", E: lit("777")}}
+	case 1: // the last toplevel variable: GETLOCAL <k-1>
+		body = []*Stmt{{K: "var", Name: "p", E: lit("1")}, {K: "var", Name: "y", E: id(lastVar)}}
+	case 2: // a field read: GETFIELD <index of the name>
+		body = []*Stmt{asg("port", id(lastVar)), {K: "var", Name: "y", E: id("port")}}
+	case 3: // a field write in last position: SETFIELD <idx> POP
+		body = []*Stmt{{K: "var", Name: "p", E: lit("1")}, asg("f", lit("778"))}
+	case 4: // print in last position
+		body = []*Stmt{{K: "var", Name: "p", E: lit("1")}, {K: "print", E: lit("779")}}
+	case 5: // double negation of a variable and of a literal
+		body = []*Stmt{{K: "var", Name: "p", E: &Expr{K: "not", A: &Expr{K: "not", A: id(lastVar)}}},
+			{K: "var", Name: "y", E: &Expr{K: "not", A: &Expr{K: "not", A: &Expr{K: "str", T: `"lit"`}}}}, {K: "print", E: id("p")}, {K: "print", E: id("y")}}
+	case 6: // declaration without initializer in last position
+		body = []*Stmt{asg("x", lit("780")), {K: "var", Name: "y"}}
+	case 7: // a nested block in last position, itself ending in a declaration
+		body = []*Stmt{{K: "var", Name: "p", E: lit("1")}, {K: "def", Name: "u", Body: []*Stmt{{K: "var", Name: "r", E: lit("781")}}}}
+	case 8: // local assignment and comparison around the boundary
+		body = []*Stmt{{K: "var", Name: "p", E: lit("1")}, {K: "eval", E: &Expr{K: "asg", T: "p", A: &Expr{K: "bin", T: "+", A: id("p"), B: id(lastVar)}}},
+			{K: "var", Name: "y", E: &Expr{K: "bin", T: "<=", A: id("p"), B: lit("782")}}, {K: "print", E: id("y")}}
+	default: // short circuit whose skipped operand reads the boundary operands
+		body = []*Stmt{{K: "var", Name: "p", E: &Expr{K: "or", A: id(lastVar), B: lit("783")}},
+			{K: "var", Name: "y", E: &Expr{K: "and", A: &Expr{K: "nil"}, B: id("p")}}, {K: "print", E: id("y")}}
+	}
+	top = append(top, &Stmt{K: "def", Name: "b", Body: body}, &Stmt{K: "print", E: id(lastVar)})
+	// the same shape at the end of the program (program end pops all toplevel variables)
+	if kind%2 == 0 {
+		top = append(top, &Stmt{K: "var", Name: "ylast", E: lit("784")})
+	} else {
+		top = append(top, &Stmt{K: "var", Name: "ylast", E: id(lastVar)})
+	}
+	return &Prog{Stmts: top}
 }
